@@ -2,7 +2,7 @@
    Property theorems only; each is closed by a lemma from C19/*.v. *)
 From Coq Require Import ZArith String List Bool Permutation Lia.
 Import ListNotations.
-From Osmo Require Import C17.Model C19.Perm C19.Sites C19.SiteTypes Gen.C19_sites C19.Classify C19.Genesis.
+From Osmo Require Import C17.Model C19.Perm C19.Sites C19.SiteTypes C19.Caches Gen.C19_sites Gen.C19_caches C19.Classify C19.Genesis.
 Open Scope Z_scope.
 
 (* ------------------------------------------------------------------------------------------------------------
@@ -96,6 +96,31 @@ Proof.
   exact escaping_sites_have_entries.
 Qed.
 Print Assumptions C19_sites_classified.
+
+(* ---------------- (a') in-memory state that outlives a transaction ---------------- *)
+
+(* every keeper field / package variable of map or sync.Map type (and every package-level variable) that is written at
+   run time is classified, under its current set of writing statements; no entry is stale *)
+Theorem C19_caches_classified : forallb cclassified caches = true /\ cstale = [].
+Proof. split; [exact all_caches_classified|exact cache_entries_exist]. Qed.
+Print Assumptions C19_caches_classified.
+
+(* poolmanager's route cache: a committed SetPoolRoute leaves no stale entry ... *)
+Theorem C19_pool_route_cache_invalidated_by_committed_create : forall n id ty,
+  pget id (cache (set_pool_route n id ty)) = None.
+Proof. exact set_pool_route_invalidates. Qed.
+Print Assumptions C19_pool_route_cache_invalidated_by_committed_create.
+
+(* ... but a ROLLED-BACK pool creation leaves one behind: on the same committed state a node that kept running and a
+   node that was restarted answer the same swap with different gas (finding F19-16, reproduced on the real application) *)
+Theorem C19_pool_route_cache_restart_refuted :
+  exists n id ty,
+    let a := failed_create_and_swap n id ty in
+    routes a = routes (restart a) /\ pools a = pools (restart a) /\
+    fst (fst (swap a id)) = fst (fst (swap (restart a) id)) /\
+    snd (fst (swap a id)) <> snd (fst (swap (restart a) id)).
+Proof. exact pool_route_cache_restart_refuted. Qed.
+Print Assumptions C19_pool_route_cache_restart_refuted.
 
 (* ---------------- (b) export / import ---------------- *)
 
